@@ -790,6 +790,20 @@ func ruleBlobProvenance(c *Check, p *Prog) {
 		okSig := p.DeepContains(sig, func(t *Term) bool {
 			return t.Op == "invoke" && strings.HasSuffix(t.Name, "signer.Signer).Sign") && strings.Contains(t.String(), "types.Data).MarshalBinary(")
 		}, 3) && strings.Contains(sig.String(), "getPendingData(")
+		// … on every alternative: a remembered signature (a cache keyed by less than what is
+		// signed) is not the signature of this item
+		if okSig {
+			for _, alt := range p.Alternatives(sig, 3) {
+				if alt.Op == "const" && alt.Name == "nil" {
+					continue // the error alternative of a helper
+				}
+				isSign := alt.Op == "extract" && len(alt.Args) == 1 && alt.Args[0].Op == "invoke" && strings.HasSuffix(alt.Args[0].Name, "signer.Signer).Sign")
+				if !isSign {
+					okSig = false
+					sig = mk("unknown", "an alternative that is not a fresh signature: "+trunc(alt.String(), 100), nil, ctx)
+				}
+			}
+		}
 		chk("SignedData.Signature", okSig, sig.String())
 		pk := get("Signer.PubKey")
 		if len(st["Signer"]) == 1 { // signer built separately and copied whole
@@ -987,6 +1001,8 @@ func runC08(c *Check) {
 			"pending data without transactions is neither submitted nor acknowledged: on an idle chain the pending-data count grows by one per (empty) block until any limit >= 1 is reached, and production is refused for good", g, path)
 	}
 	c.MinInstances("C08-R2", 1)
+	c.Doc("C08-R4", "= C13-R8 (liveness of the submission loops, on which the release of the limit depends): a loop waiting on a one-shot timer re-arms it on every path back to the wait.")
+	ruleTimersRearmed(c, p, "C08-R4")
 	c.Doc("C08-R3", "EO: a submission loop passes over a tick without reading its pending list only if its own tracker reports empty (otherwise pending items never leave the count and the limit is never released).")
 	ruleLoopSkipsOnlyWhenOwnTrackerEmpty(c, p, "C08-R3")
 }
